@@ -1080,7 +1080,7 @@ func (w *world) final() {
 	w.checkRawNames(w.rawState())
 }
 
-var rootTypes = []string{"memory", "localdisk", "diskpacked", "blobpacked", "encrypt", "replica", "verif", "namespace", "overlay"}
+var rootTypes = []string{"memory", "localdisk", "diskpacked", "blobpacked", "encrypt", "replica", "verif", "namespace", "overlay", "proxycache"}
 
 func rootOf(desc string) string {
 	if i := strings.IndexAny(desc, "[("); i >= 0 {
